@@ -7,7 +7,7 @@ use lazy_static::lazy_static;
 use nom::bytes::complete::escaped;
 use nom::combinator::{map_opt, not};
 use nom::multi::{fold_many0, many1};
-use nom::sequence::{delimited, separated_pair};
+use nom::sequence::delimited;
 use nom::{
     branch::alt,
     bytes::complete::{take, take_while, take_while1},
@@ -756,26 +756,18 @@ fn sort(input: Span) -> IResult<Span, Operator> {
     .parse(input)
 }
 
-fn filter_explicit_and(input: Span) -> IResult<Span, Option<Search>> {
-    separated_pair(low_filter, tag("AND").delimited_by(multispace1), low_filter)
-        .map(|p| match p {
-            (Some(l), Some(r)) => Some(Search::And(vec![l, r])),
-            (Some(l), None) => Some(l),
-            (None, Some(r)) => Some(r),
-            (None, None) => None,
-        })
-        .parse(input)
-}
-
-fn filter_explicit_or(input: Span) -> IResult<Span, Option<Search>> {
-    separated_pair(mid_filter, tag("OR").delimited_by(multispace1), mid_filter)
-        .map(|p| match p {
-            (Some(l), Some(r)) => Some(Search::Or(vec![l, r])),
-            (Some(l), None) => Some(l),
-            (None, Some(r)) => Some(r),
-            (None, None) => None,
-        })
-        .parse(input)
+/// Combines the operands of an explicit AND / OR; an operand can be empty (e.g. `*`).
+fn combine_filters(
+    left: Option<Search>,
+    right: Option<Search>,
+    combine: fn(Vec<Search>) -> Search,
+) -> Option<Search> {
+    match (left, right) {
+        (Some(l), Some(r)) => Some(combine(vec![l, r])),
+        (Some(l), None) => Some(l),
+        (None, Some(r)) => Some(r),
+        (None, None) => None,
+    }
 }
 
 fn low_filter(input: Span) -> IResult<Span, Option<Search>> {
@@ -791,12 +783,35 @@ fn low_filter(input: Span) -> IResult<Span, Option<Search>> {
     ))(input)
 }
 
+// The left operand is parsed once and the operator is optional.  Trying `low AND low` first and
+// falling back to `low` parsed every nested filter four times per level of parentheses, which
+// made the parser exponential in the nesting depth.
 fn mid_filter(input: Span) -> IResult<Span, Option<Search>> {
-    alt((filter_explicit_and, low_filter))(input)
+    let (input, left) = low_filter(input)?;
+    let (input, right) =
+        opt(tag("AND").delimited_by(multispace1).precedes(low_filter)).parse(input)?;
+
+    Ok((
+        input,
+        match right {
+            Some(right) => combine_filters(left, right, Search::And),
+            None => left,
+        },
+    ))
 }
 
 fn high_filter(input: Span) -> IResult<Span, Option<Search>> {
-    alt((filter_explicit_or, mid_filter))(input)
+    let (input, left) = mid_filter(input)?;
+    let (input, right) =
+        opt(tag("OR").delimited_by(multispace1).precedes(mid_filter)).parse(input)?;
+
+    Ok((
+        input,
+        match right {
+            Some(right) => combine_filters(left, right, Search::Or),
+            None => left,
+        },
+    ))
 }
 
 fn end_of_query(input: Span) -> IResult<Span, Span> {
